@@ -126,3 +126,9 @@ Definition check_merged (member : prog -> bool) (L : list prog) (merges : list (
     used to enumerate the language list. *)
 Definition member_of (fuel : nat) (tbl : table) (x : nt) (p : prog) : bool :=
   contains tbl x p && normal p && Nat.leb (pdepth p) fuel.
+
+(** The same sandwich check for an arbitrary deterministic filter [acc]. *)
+Definition check_filtered_gen (member : prog -> bool) (L : list prog) (acc : prog -> bool) (out : list prog) : bool :=
+  nodupb prog_eqb out
+  && forallb (fun p => member p && acc p) out
+  && forallb (fun p => negb (forallb acc (subterms p)) || memb prog_eqb p out) L.
